@@ -17,8 +17,13 @@
 // (run.go checkSplit), retries that separate non-repeating differences (a race inside one leaf, a lost error) from
 // differences caused by the layout.
 //
+// Beyond the design entry as well (plan.go): the compute plans themselves. The real flow.BuildPhysicalPlan is called for
+// 0..10 live brokers x 1..6 requested targets and every plan is judged structurally (exactly one executing target, ...);
+// end to end, layouts with more live brokers than compute targets (1 of 3, 1 of 7: must equal the reference; 5 of 6, 5 of
+// 8: the executing target must be seen asking every leaf once) - a run in which nobody asked the leaves has its own class.
+//
 // Files: dataset.go (data sets), query.go (statements, order by / limit oracle), layout.go (partitions, delivery orders,
-// plan recording), run.go (child: reference, layouts, judging, classification), iso.go, directed.go, repro_test.go
+// plan recording), plan.go (compute plan oracle), run.go (child: reference, layouts, judging, classification), iso.go, directed.go, repro_test.go
 // (minimal reproductions of the findings, C12_REPRO=1), suggested-fixes.patch (validated against the engine).
 //
 // Debugging one case by hand:
@@ -29,6 +34,7 @@
 // C12_ONLY_LAYOUT=<substring of the layout description>, C12_NO_ISOLATED=1, C12_VERBOSE=1 (prints the child's result);
 // C12_EXTRA_SQL="sql;sql" runs statements after loading and prints leaf answers and results, on the layout
 // C12_EXTRA_LAYOUT="0,1|2,3" (default: all shards on one leaf), C12_EXTRA_INTER=<n>, C12_EXTRA_PERM="1,0".
+// C12_NO_EXTRA=1 leaves out the layouts with more live brokers than compute targets (timing; the parent then reports inconclusive).
 // Parent: C12_DATASETS=<n>, C12_FIRST=<index of the first data set>.
 package main
 
@@ -79,6 +85,11 @@ func main() {
 		"intermediate brokers; every leaf on the shared database or on a database of its own (isolated metadata). Delivery: every permutation " +
 		"for <= 4 leaves (each response handled completely before the next is delivered), seeded random permutations with 0-2ms delays above; " +
 		"plus, for 2 shards, a transport that hands every response to the root before SendRequest returns. " +
+		"More live brokers than compute targets: one target picked by flow.BuildPhysicalPlan among 3 / 7 live brokers (must equal the reference), " +
+		"5 targets of 6 / 8 live brokers (observed: the plan, which target executes, how many requests every leaf got). " +
+		"Compute plans: the real flow.BuildPhysicalPlan for 0..10 live brokers x 1..6 requested targets, 150 (thorough 1500) calls each (the shuffle inside is " +
+		"seeded from the clock), every plan judged structurally: min(live, requested) distinct live targets, exactly one executing target, database kept, " +
+		"the plan survives its JSON encoding, the caller's node list keeps its nodes. " +
 		"Statements: field lists, functions, arithmetic, quantile, tag conditions, group by, order by / limit, select *, intervals, ranges " +
 		"cutting families, unknown metric/field/tag key. Non-trivial = the reference result is non-empty, the layout has more than one shard " +
 		"or leaf and the run equals the reference; distinct by (data set, shard count, layout, delivery order, statement).")
@@ -95,6 +106,10 @@ func main() {
 	c.Assume("'never answers' is decided by internal/node: transport quiescent, every processor and pool idle, root and intermediates parked in waitResponse, observed " +
 		"three times 250ms apart, and no result when cancelled; the 90s watchdog only yields inconclusive")
 	c.Assume("race detector reports do not decide C12; no race variant is built")
+	c.Assume("a compute plan is usable only with exactly one executing (not receive-only) target: query/intermediate_processor.go Process runs the statement on " +
+		"that target alone, every other target only receives what the leaves send")
+
+	checkPlans(c)
 
 	base := baseTime()
 	nData := c.Pick(16, 200)
@@ -223,6 +238,16 @@ func main() {
 	need("runs.leaves.4", 24)
 	need("runs.leaves.8", 5)
 	need("runs.plan.one-compute-target", 50)
+	// more live brokers than compute targets: reached end to end, answering (one target) and with the executing target seen asking every leaf
+	need("runs.compute_plan.1_targets_of_3_live_brokers", 20)
+	need("runs.compute_plan.1_targets_of_7_live_brokers", 20)
+	need("runs.compute_plan.5_targets_of_6_live_brokers", 8)
+	need("runs.compute_plan.5_targets_of_8_live_brokers", 8)
+	need("compute_plans.built.live>requested", 1000)
+	if c.Counter("runs.compute_plan.no_leaf_was_asked") == 0 && c.Counter("runs.compute_plan.some_leaf_not_asked_or_asked_more_than_once") == 0 {
+		// (a run in which the executing target did not reach the leaves is judged where it happened, it is not missing coverage)
+		need("runs.compute_plan.more_live_brokers_than_compute_targets.every_leaf_asked_exactly_once", 50)
+	}
 	need("runs_with_a_leaf_without_matching_data.no-data-at-all", 5)
 	need("runs_with_a_leaf_without_matching_data.only-other-metrics", 5)
 	need("runs_with_a_leaf_without_matching_data.no-series-matching-the-condition", 5)
